@@ -61,6 +61,9 @@ def poly_world(names, seed, p=3, k=4, gaps=False, nvar=None):
     base = [[0, 1, 1], [1, 0, 1], [1, 1, 0], [0, 0, 1]]
     for si, s in enumerate(names):
         world["haps"][s] = {"chr1": [list(base[(i + si) % 4]) for i in range(k)]}
+        if si > 0 and not gaps:
+            # the samples differ in where they are heterozygous
+            world["haps"][s]["chr1"][si - 1] = [1] * p
         for h in range(p):
             if gaps:
                 for a in range(0, k - 1, 2):
@@ -389,35 +392,48 @@ def run(rep, tier, seed, only=None):
             os.makedirs(P2)
             pp = pw.materialize(poly_world(["S1"], seed + 9, gaps=True, nvar=8 if not T else 10), P2)
 
+            vcf_in = [pp["vcf"]]
+            extra = [{}]
+
             def poly(threads, tag):
                 out = os.path.join(P2, f"out_{tag}.vcf")
                 with open(out, "w") as f:
-                    run_polyphase([pp["bam"]], pp["vcf"], ploidy=3, reference=pp["fasta"], output=f, write_command_line_header=False, threads=threads)
+                    run_polyphase([pp["bam"]], vcf_in[0], ploidy=3, reference=pp["fasta"], output=f, write_command_line_header=False, threads=threads, **extra[0])
                 return open(out).read()
 
             ref = poly(1, "t1")
+            # second configuration: the phased output as input with --use-prephasing (blocks carry a pre-phasing)
+            pre_vcf = os.path.join(P2, "prephased.vcf")
+            with open(pre_vcf, "w") as f:
+                f.write(ref)
+            configs = [(pp["vcf"], {}, ref)]
+            vcf_in[0], extra[0] = pre_vcf, {"use_prephasing": True, "block_cut_sensitivity": 1}
+            configs.append((pre_vcf, dict(extra[0]), poly(1, "t1pre")))
+            vcf_in[0], extra[0] = pp["vcf"], {}
             stock = alg.Pool
-            for th in (2, 4):
-                runs += 1
-                if poly(th, f"stock{th}") != ref:
-                    viols.append(V("threads", f"polyphase --threads {th} (stock Pool) differs from --threads 1", {"scenario": "polyphase", "threads": th}))
-            alg.Pool = ControlledPool
-            try:
-                ControlledPool.assignment = [0]
-                poly(2, "probe")
-                nb = ControlledPool.last_jobs
-                for w in (2, 3):
-                    for asg in restricted_growth(nb, w):
-                        ControlledPool.assignment = asg
-                        got = poly(w, "ctl")
-                        runs += 1
-                        schedules += 1
-                        if got != ref:
-                            viols.append(V("worker-schedule", f"polyphase with job->worker assignment {asg} differs from --threads 1", {"scenario": "polyphase", "assignment": asg}))
-                            break
-                samples.append({"scenario": "polyphase", "jobs": nb, "assignment": asg})
-            finally:
-                alg.Pool = stock
+            for cvcf, cextra, cref in configs:
+                vcf_in[0], extra[0] = cvcf, cextra
+                for th in (2, 4):
+                    runs += 1
+                    if poly(th, f"stock{th}") != cref:
+                        viols.append(V("threads", f"polyphase --threads {th} (stock Pool, options {cextra}) differs from --threads 1", {"scenario": "polyphase", "threads": th, "options": cextra}))
+                alg.Pool = ControlledPool
+                try:
+                    ControlledPool.assignment = [0]
+                    poly(2, "probe")
+                    nb = ControlledPool.last_jobs
+                    for w in (2, 3):
+                        for asg in restricted_growth(nb, w):
+                            ControlledPool.assignment = asg
+                            got = poly(w, "ctl")
+                            runs += 1
+                            schedules += 1
+                            if got != cref:
+                                viols.append(V("worker-schedule", f"polyphase (options {cextra}) with job->worker assignment {asg} differs from --threads 1", {"scenario": "polyphase", "assignment": asg, "options": cextra}))
+                                break
+                    samples.append({"scenario": "polyphase", "options": cextra, "jobs": nb, "assignment": asg})
+                finally:
+                    alg.Pool = stock
     finally:
         sc_root.close()
     rep.add_violations(viols)
